@@ -11,6 +11,7 @@ import TlsModel.Suites
     fsl vmaj vmin macs ciphers kexs suites            -> suites      (_filterSuites)
     get getter vmaj vmin macs ciphers kexs            -> suites      (CipherSuite.get*Suites)
     ffc alg|None suites                               -> suites      (filter_for_certificate)
+    cguard vmaj vmin s offered                        -> 1|0         (client's ServerHello suite guard)
     ccn s / cmn s                -> canonical cipher / MAC name | None
     ckex s                       -> class expectsCertificate expectsSKE
     ske s                        -> kind|AssertionError signed
@@ -74,6 +75,9 @@ def handle : List String → Option String
     let g ← ofStr Getter.all Getter.str g
     some (natsOut (getter g (parseNames MName.all MName.str m) (parseNames CName.all CName.str c)
       (parseNames KName.all KName.str k) (← a.toNat?, ← b.toNat?)))
+  | ["cguard", a, b, s, l] => do
+    let l ← parseNats l
+    some (boolStr (clientAcceptsSuite l (← a.toNat?, ← b.toNat?) (← s.toNat?)))
   | ["ffc", alg, l] => do
     let l ← parseNats l
     let alg ← if alg == "None" then some none else (ofStr CertAlg.all CertAlg.str alg).map some
